@@ -41,6 +41,14 @@ pub struct Case {
 
 fn make_key(x: &[u8], y: &[u8], order: u8) -> coset::CoseKey {
     let mut key = CoseKeyBuilder::new_ec2_pub_key(iana::EllipticCurve::P_256, x.to_vec(), y.to_vec()).algorithm(iana::Algorithm::ES256).build();
+    // optional members of a COSE_Key: key id (bit 3 of the order byte), key operations (an array inside the key, bit 4)
+    if order & 8 != 0 {
+        key.key_id = vec![0xC0, 0x5E, order];
+    }
+    if order & 16 != 0 {
+        key.key_ops = [coset::KeyOperation::Assigned(iana::KeyOperation::Verify), coset::KeyOperation::Assigned(iana::KeyOperation::Sign)].into_iter().collect();
+    }
+    let order = order & 7;
     const PERMS: [[usize; 3]; 6] = [[0, 1, 2], [0, 2, 1], [1, 0, 2], [1, 2, 0], [2, 0, 1], [2, 1, 0]];
     if key.params.len() == 3 {
         let p = PERMS[order as usize % 6];
@@ -231,11 +239,28 @@ pub fn check(ctx: &mut Ctx, c: &Case, prefixes: bool) -> Result<(), String> {
                         return Err("reserved flag bits accepted".into());
                     }
                     let again = catch_unwind(AssertUnwindSafe(|| v.to_vec())).map_err(|_| "to_vec panicked on a decoded value".to_string())?;
-                    // compared on the re-encoded bytes: a corruption can make payload bytes parse as a CBOR NaN,
-                    // and a value holding a NaN is not equal to itself
-                    match AuthenticatorData::from_slice(&again) {
-                        Ok(v2) if v2.to_vec() == again => {}
-                        other => return Err(format!("decode/encode/decode/encode is not a fixpoint after corrupting byte {pos}: {other:?}").chars().take(400).collect()),
+                    // whatever the library decoded, it must be able to read its own encoding of it. Compared on bytes
+                    // (a corrupted payload can parse as a CBOR NaN, unequal to itself), and over a few rounds: the
+                    // generic CBOR reader normalises some encodings only on a second pass (a tag-2 bignum written
+                    // with an indefinite-length byte string stays a tag, re-encoded with a definite length it becomes
+                    // the integer 0), which is neither the library's doing nor covered by the statement
+                    let mut cur = again;
+                    let mut settled = false;
+                    for _round in 0..4 {
+                        match catch_unwind(AssertUnwindSafe(|| AuthenticatorData::from_slice(&cur))).map_err(|_| format!("from_slice panicked on the library's own re-encoding (byte {pos} corrupted)"))? {
+                            Ok(v2) => {
+                                let next = v2.to_vec();
+                                if next == cur {
+                                    settled = true;
+                                    break;
+                                }
+                                cur = next;
+                            }
+                            Err(e) => return Err(format!("after corrupting byte {pos} the input decodes, but the library rejects its own encoding of what it decoded: {e:?}")),
+                        }
+                    }
+                    if !settled {
+                        ctx.measure("corrupted encodings whose decode/encode does not settle within 4 rounds", 1);
                     }
                 }
             }
@@ -245,7 +270,10 @@ pub fn check(ctx: &mut Ctx, c: &Case, prefixes: bool) -> Result<(), String> {
     if c.ext2.is_some() {
         ctx.class("second extension setter call");
     }
-    if c.att.is_some() && c.key_order % 6 != 0 {
+    if c.att.is_some() && c.key_order >= 8 {
+        ctx.class("COSE key with key id / key operations");
+    }
+    if c.att.is_some() && (c.key_order & 7) % 6 != 0 {
         ctx.class("COSE key parameters not in builder order");
     }
     if c.att.is_some() || has_ext(c) {
@@ -283,7 +311,7 @@ fn case() -> impl Strategy<Value = Case> {
         2 => proptest::option::weighted(0.8, proptest::collection::vec(any::<u8>(), 0..70)).prop_map(Ext::Get),
     ];
     let ext2 = proptest::option::weighted(0.25, ext.clone());
-    (rp, counter, any::<u8>(), att, ext, prop_oneof![2 => Just(0u8), 1 => 0u8..6], ext2).prop_map(|(rp_id, counter, flags, att, ext, key_order, ext2)| Case { rp_id, counter, flags: flags & 0x1D, att, ext, key_order, ext2 })
+    (rp, counter, any::<u8>(), att, ext, prop_oneof![4 => Just(0u8), 2 => 0u8..6, 1 => 0u8..32], ext2).prop_map(|(rp_id, counter, flags, att, ext, key_order, ext2)| Case { rp_id, counter, flags: flags & 0x1D, att, ext, key_order, ext2 })
 }
 
 fn check_any(ctx: &mut Ctx, c: &Case, prefixes: bool) -> Result<(), String> {
